@@ -109,6 +109,20 @@ impl KBucket {
     }
 }
 
+// Verification hooks (runtime-monitoring harness only).
+#[cfg(feature = "verif")]
+impl KBucket {
+    /// All entries of the bucket.
+    pub fn verif_nodes(&self) -> &[KademliaPeer] {
+        &self.nodes
+    }
+
+    /// Find an entry without creating a placeholder.
+    pub fn verif_find_mut<K: Clone>(&mut self, key: &Key<K>) -> Option<&mut KademliaPeer> {
+        self.nodes.iter_mut().find(|n| n.key == *key)
+    }
+}
+
 #[cfg(test)]
 mod tests {
     use super::*;
